@@ -98,4 +98,5 @@ MUTANTS += [
      'return self._reference(call.process_register_capture_group_name_genreg(lowered, "([abcd])"), any_width=False)',
      'return self._reference(call.process_register_capture_group_name_genreg(lowered, "([abcd])"), any_width=True)'),
     ("c14-matching-options-not-restored", "C14", MA, "        for key, value in self._matching_options.items():\n            self.global_config._set_info(key, value)\n", ""),
+    ("c14-config-not-reloaded-at-produce", "C14", YR, "        self._load_config()\n\n        patterns = self._get_pattern()", "        patterns = self._get_pattern()"),
 ]
